@@ -3,6 +3,7 @@ CONSTANTS
     Pat = "distinct"
     ServedU = "atomic"
     DirU = "atomic"
+    AllDirOptions = {-1, 0, 1, 2}
     PerNameOnSuccess = TRUE
     ListNamesCanonical = TRUE
     FindPrefersDirectChild = TRUE
